@@ -580,6 +580,8 @@ def r07_10(ctx, g):
                         seq_txts |= {norm(d.body), norm(d.orelse)}
                     elif d is not None:
                         seq_txts.add(norm(d))
+            elif isinstance(x, ast.IfExp):
+                seq_txts |= {norm(x.body), norm(x.orelse)}
             else:
                 seq_txts.add(norm(x))
             seq_ok = seq_txts <= {f"{fields}[2]", "''"} and a[2] == f"{fields}[3:]"
